@@ -249,14 +249,22 @@ func csWalk(p *loadedPkg, name string, body *ast.BlockStmt, watched map[string]b
 
 type varFact struct{ fn, v, rw, kind string }
 
+// counterOps: per (function, variable) the ordered sync/atomic operations applied to a
+// package-level counter: CAdd (Add*), CLoad, CStore, COther (Swap, CompareAndSwap, plain)
+type counterOps struct {
+	fn, v string
+	ops   []string
+}
+
 // varWalk classifies accesses to package-level variables: inside the closure
 // given to sync.Once.Do (OnceInit), after such a Do call in the same function
 // (AfterOnce), as operand of a sync/atomic call (Atomic), else Plain.
-func varWalk(p *loadedPkg, name string, fd *ast.FuncDecl, vars map[types.Object]bool, out *[]varFact) {
+func varWalk(p *loadedPkg, name string, fd *ast.FuncDecl, vars map[types.Object]bool, out *[]varFact, cops *[]counterOps) {
 	w := writeTargets(fd.Body)
 	seenDo := false
-	var walk func(n ast.Node, inOnce, inAtomic bool)
-	walk = func(n ast.Node, inOnce, inAtomic bool) {
+	opsOf := map[string][]string{}
+	var walk func(n ast.Node, inOnce bool, inAtomic string)
+	walk = func(n ast.Node, inOnce bool, inAtomic string) {
 		ast.Inspect(n, func(x ast.Node) bool {
 			switch v := x.(type) {
 			case *ast.CallExpr:
@@ -270,8 +278,17 @@ func varWalk(p *loadedPkg, name string, fd *ast.FuncDecl, vars map[types.Object]
 							return false
 						}
 						if o.Pkg() != nil && o.Pkg().Path() == "sync/atomic" {
+							kind := "VAtomicCAS"
+							switch {
+							case strings.HasPrefix(o.Name(), "Add"), strings.HasPrefix(o.Name(), "And"), strings.HasPrefix(o.Name(), "Or"):
+								kind = "VAtomicRMW"
+							case strings.HasPrefix(o.Name(), "Load"):
+								kind = "VAtomicLoad"
+							case strings.HasPrefix(o.Name(), "Store"):
+								kind = "VAtomicStore"
+							}
 							for _, a := range v.Args {
-								walk(a, inOnce, true)
+								walk(a, inOnce, kind)
 							}
 							return false
 						}
@@ -288,19 +305,120 @@ func varWalk(p *loadedPkg, name string, fd *ast.FuncDecl, vars map[types.Object]
 				}
 				kind := "VPlain"
 				switch {
-				case inAtomic:
-					kind = "VAtomic"
+				case inAtomic != "":
+					kind = inAtomic
 				case inOnce:
 					kind = "VOnceInit"
 				case seenDo && rw == "R":
 					kind = "VAfterOnce"
 				}
 				*out = append(*out, varFact{name, o.Name(), rw, kind})
+				if _, isInt := o.Type().Underlying().(*types.Basic); isInt {
+					op := "COther"
+					switch kind {
+					case "VAtomicRMW":
+						op = "CAdd"
+					case "VAtomicLoad":
+						op = "CLoad"
+					case "VAtomicStore":
+						op = "CStore"
+					}
+					opsOf[o.Name()] = append(opsOf[o.Name()], op)
+				}
 			}
 			return true
 		})
 	}
-	walk(fd.Body, false, false)
+	walk(fd.Body, false, "")
+	var ks []string
+	for k := range opsOf {
+		ks = append(ks, k)
+	}
+	sort.Strings(ks)
+	for _, k := range ks {
+		*cops = append(*cops, counterOps{name, k, opsOf[k]})
+	}
+}
+
+// sliceMut: in-place mutation of a slice that belongs to a SecurityConfig
+// (`append(x[:i], x[i+1:]...)`, `x[i] = v`, sort/copy into it) where x is a
+// SecurityConfig slice field or a local alias of one: per-connection configs are
+// SHALLOW copies, so the backing array is shared between all handshakes.
+type sliceMut struct{ fn, what, base string }
+
+func cfgSliceRoot(p *loadedPkg, fd *ast.FuncDecl, e ast.Expr, depth int) string {
+	e = ast.Unparen(e)
+	switch v := e.(type) {
+	case *ast.SliceExpr:
+		return cfgSliceRoot(p, fd, v.X, depth)
+	case *ast.SelectorExpr:
+		if s, ok := p.Info.Selections[v]; ok && s.Kind() == types.FieldVal {
+			if nn := namedOf(s.Recv()); nn != nil && nn.Obj().Name() == "SecurityConfig" {
+				if _, isSlice := s.Type().Underlying().(*types.Slice); isSlice {
+					return "SecurityConfig." + v.Sel.Name
+				}
+			}
+		}
+	case *ast.Ident:
+		if depth > 3 {
+			return ""
+		}
+		if vo, ok := p.Info.Uses[v].(*types.Var); ok && !vo.IsField() {
+			if _, isSlice := vo.Type().Underlying().(*types.Slice); isSlice {
+				if def := localDef(p, fd, vo); def != nil {
+					return cfgSliceRoot(p, fd, def, depth+1)
+				}
+			}
+		}
+	}
+	return ""
+}
+
+func sliceMuts(p *loadedPkg, out *[]sliceMut) {
+	for _, file := range p.Files {
+		for _, d := range file.Decls {
+			fd, ok := d.(*ast.FuncDecl)
+			if !ok || fd.Body == nil {
+				continue
+			}
+			name := funcKey(p, fd)
+			ast.Inspect(fd.Body, func(n ast.Node) bool {
+				switch v := n.(type) {
+				case *ast.CallExpr:
+					id, ok := v.Fun.(*ast.Ident)
+					if ok && id.Name == "append" && len(v.Args) > 0 {
+						if _, isSl := ast.Unparen(v.Args[0]).(*ast.SliceExpr); isSl {
+							if r := cfgSliceRoot(p, fd, v.Args[0], 0); r != "" {
+								*out = append(*out, sliceMut{name, "append-into-prefix", r})
+							}
+						}
+					}
+					if ok && id.Name == "copy" && len(v.Args) > 0 {
+						if r := cfgSliceRoot(p, fd, v.Args[0], 0); r != "" {
+							*out = append(*out, sliceMut{name, "copy-into", r})
+						}
+					}
+					if sel, ok := v.Fun.(*ast.SelectorExpr); ok && len(v.Args) > 0 {
+						if o, ok := p.Info.Uses[sel.Sel].(*types.Func); ok && o.Pkg() != nil && (o.Pkg().Path() == "sort" || o.Pkg().Path() == "slices") &&
+							(strings.HasPrefix(o.Name(), "Sort") || o.Name() == "Strings" || o.Name() == "Slice" || o.Name() == "Reverse" || o.Name() == "Delete" || o.Name() == "Insert" || o.Name() == "Compact") {
+							if r := cfgSliceRoot(p, fd, v.Args[0], 0); r != "" {
+								*out = append(*out, sliceMut{name, o.Pkg().Path() + "." + o.Name(), r})
+							}
+						}
+					}
+				case *ast.AssignStmt:
+					for _, l := range v.Lhs {
+						if ix, ok := ast.Unparen(l).(*ast.IndexExpr); ok {
+							if r := cfgSliceRoot(p, fd, ix.X, 0); r != "" {
+								*out = append(*out, sliceMut{name, "element-assign", r})
+							}
+						}
+					}
+				}
+				return true
+			})
+		}
+	}
 }
 
 type authSite struct{ fn, arg, kind string }
@@ -753,6 +871,7 @@ func factsC17(b *strings.Builder) error {
 	var accs []access
 	var css []csFact
 	var vfs []varFact
+	var cops []counterOps
 	vars := map[types.Object]bool{}
 	for i, file := range sec.Files {
 		if sec.Names[i] != "session_manager.go" {
@@ -778,7 +897,7 @@ func factsC17(b *strings.Builder) error {
 			}
 			lockWalk(sec, funcKey(sec, fd), fd.Body, map[string]bool{"SessionCache": true, "SessionEntry": true}, &accs)
 			csWalk(sec, funcKey(sec, fd), fd.Body, map[string]bool{"SessionCache": true}, &css)
-			varWalk(sec, funcKey(sec, fd), fd, vars, &vfs)
+			varWalk(sec, funcKey(sec, fd), fd, vars, &vfs, &cops)
 		}
 	}
 	nCache := len(accs)
@@ -836,6 +955,26 @@ func factsC17(b *strings.Builder) error {
 			sep = ""
 		}
 		fmt.Fprintf(b, "  mk_vf %s %s A%s %s%s\n", coqStr(v.fn), coqStr(v.v), v.rw, v.kind, sep)
+	}
+	b.WriteString("].\n\nDefinition counter_progs : list counter_prog := [\n")
+	for i, c := range cops {
+		sep := ";"
+		if i == len(cops)-1 {
+			sep = ""
+		}
+		fmt.Fprintf(b, "  mk_cp %s %s [%s]%s\n", coqStr(c.fn), coqStr(c.v), strings.Join(c.ops, "; "), sep)
+	}
+	b.WriteString("].\n\nDefinition slice_muts : list slice_mut := [\n")
+	var sms []sliceMut
+	for _, sp := range []string{"security", "client", "server", "ccb"} {
+		sliceMuts(pk[sp], &sms)
+	}
+	for i, m := range sms {
+		sep := ";"
+		if i == len(sms)-1 {
+			sep = ""
+		}
+		fmt.Fprintf(b, "  mk_sm %s %s %s%s\n", coqStr(m.fn), coqStr(m.what), coqStr(m.base), sep)
 	}
 	b.WriteString("].\n\nDefinition auth_sites : list auth_site := [\n")
 	for i, s := range sites {
